@@ -4,3 +4,4 @@ import Liquid.Scan
 import Liquid.Driver
 import Liquid.Value
 import Liquid.Utf8
+import Liquid.Compare
